@@ -141,6 +141,20 @@ theorem overflow_is_error {hash : List Nat → Nat} {w d cmax : Nat} (hw : 0 < w
   cases colsOf_eq hc
   exact this
 
+/-- The same for an arbitrary well-formed column list (as used by `CMSHeap`, whose columns come
+from another hasher): `addCols` fails iff a visited counter would exceed `cmax`. -/
+theorem overflow_is_error_cols {s : St} {cols : List Nat} (hsz : s.table.size = s.w * s.d)
+    (hc : cols.length = s.d ∧ ∀ c ∈ cols, c < s.w) (hd : 0 < s.d) (n : Nat) :
+    addCols s cols n = none ↔
+      ∃ i, ∃ _ : i < cols.length, s.cmax < cell s.table (i * s.w + cols[i]) + n := by
+  rw [(addCols_spec hsz hc hd n).1]
+  constructor
+  · rintro ⟨v, hv, hlt⟩
+    obtain ⟨r, hr, rfl⟩ := mem_rowVals.mp hv
+    exact ⟨r, hr, by simpa using hlt⟩
+  · rintro ⟨r, hr, hlt⟩
+    exact ⟨_, mem_rowVals.mpr ⟨r, hr, rfl⟩, by simpa using hlt⟩
+
 /-! ### non-vacuity -/
 
 /-- a `3 × 2` sketch (`w ≠ d`) with a colliding hasher, merge and clear -/
@@ -150,6 +164,9 @@ example : (run (fun l => l.sum) 3 2 10 [.addN 1 2, .merge [.addN 1 3, .addN 2 1]
     (query (fun l => l.sum) · 1) = some 9 := by decide  -- elements 1 and 4 collide in both rows
 example : trueWeight [.addN 1 2, .merge [.addN 1 3, .addN 2 1], .addN 4 4] 1 = 5 ∧
     totalWeight [.addN 1 2, .merge [.addN 1 3, .addN 2 1], .addN 4 4] = 10 := by decide
+/-- `add_n` returns the new estimate (here 6 = min(2, 5) + 4 …) -/
+example : (run (fun l => l.sum) 3 2 10 [.addN 1 2, .addN 2 3]).bind
+    (fun s => (addN (fun l => l.sum) s 1 4).map (·.2)) = some 6 := by decide +kernel
 /-- overflow is reported, not wrapped -/
 example : run (fun l => l.sum) 3 2 10 [.addN 1 6, .addN 1 5] = none := by decide
 example : run (fun l => l.sum) 3 2 10 [.addN 1 6, .merge [.addN 1 5]] = none := by decide
